@@ -121,7 +121,10 @@ package reflect
 //@ spec func isAlign(a Int) bool = a == 1 || a == 2 || a == 4 || a == 8
 //@ spec func validT(x Int) bool = x == tBOOL || x == tBYTE || x == tDOUBLE || x == tI16 || x == tI32 || x == tI64 || x == tSTRING || x == tSTRUCT || x == tMAP || x == tSET || x == tLIST || x == tENUM
 
-//@ axiom wfT_base: forall t *tType :: {wfT(t)} wfT(t) ==> t != nil && validT(t.T) && t.WT == (t.T == tENUM ? tI32 : t.T)
+// wfTshape(t): layout and kind facts of a node and its children (everything except which functions
+// AppendFunc / EncodedSizeFunc hold); wfT(t) adds those and holds recursively.
+//@ spec uf func wfTshape(t *tType) bool
+//@ axiom wfTshape_base: forall t *tType :: {wfTshape(t)} wfTshape(t) ==> t != nil && validT(t.T) && t.WT == (t.T == tENUM ? tI32 : t.T)
 //@     && t.FixedSize == typeToSize[t.T] && 0 <= t.Size && t.Size <= MAXELEM && isAlign(t.Align)
 //@     && t.SimpleType == simpleTypes[t.T]
 //@     && (t.IsPointer ==> t.Size == 8 && t.Align == 8 && t.MallocAbiType != 0)
@@ -129,10 +132,16 @@ package reflect
 //@     && (t.T == tMAP ==> t.MapTmpVarsPool != nil && !t.IsPointer)
 //@     && ((t.T == tLIST || t.T == tSET) ==> !t.IsPointer)
 //@     && ((t.T == tSTRING && !t.IsPointer) ==> (t.Tag == defs.T_string || t.Tag == defs.T_binary))
-//@     && (!t.SimpleType ==> t.AppendFunc != nil && t.EncodedSizeFunc != nil)
 //@     && (!t.IsPointer ==> ((t.T == tBOOL || t.T == tBYTE) ==> t.Size == 1) && (t.T == tI16 ==> t.Size == 2) && (t.T == tI32 ==> t.Size == 4)
 //@           && ((t.T == tI64 || t.T == tDOUBLE || t.T == tENUM || t.T == tMAP) ==> t.Size == 8)
 //@           && (t.T == tSTRING ==> t.Size == (t.Tag == defs.T_binary ? 24 : 16)) && ((t.T == tLIST || t.T == tSET) ==> t.Size == 24))
+//@ axiom wfTshape_V: forall t *tType :: {wfTshape(t), t.V} wfTshape(t) && (t.IsPointer || t.T == tMAP || t.T == tLIST || t.T == tSET) ==> t.V != nil && wfTshape(t.V)
+//@     && (!t.IsPointer && t.V.IsPointer ==> t.V.T == tSTRUCT)
+//@     && (t.IsPointer ==> !t.V.IsPointer && t.T == t.V.T && t.WT == t.V.WT && t.FixedSize == t.V.FixedSize && t.V.T != tMAP && t.V.T != tLIST && t.V.T != tSET)
+//@ axiom wfTshape_K: forall t *tType :: {wfTshape(t), t.K} wfTshape(t) && t.T == tMAP ==> t.K != nil && wfTshape(t.K) && (t.K.IsPointer ==> t.K.T == tSTRUCT) && t.K.Tag != defs.T_binary && t.K.T != tMAP && t.K.T != tLIST && t.K.T != tSET
+
+//@ axiom wfT_base: forall t *tType :: {wfT(t)} wfT(t) ==> wfTshape(t)
+//@     && (!t.SimpleType ==> t.AppendFunc != nil && t.EncodedSizeFunc != nil && implementsAppend(t))
 
 // consequences of the tables (proved, not assumed): every wire type a descriptor can carry has a
 // positive minimum wire size, and for fixed-size kinds that minimum is the exact size.
@@ -140,11 +149,8 @@ package reflect
 //@     && (t.FixedSize > 0 ==> minWireSize[t.WT] == t.FixedSize)
 //@     && (t.FixedSize == 0 || t.FixedSize == 1 || t.FixedSize == 2 || t.FixedSize == 4 || t.FixedSize == 8)
 
-//@ axiom wfT_V: forall t *tType :: {wfT(t), t.V} wfT(t) && (t.IsPointer || t.T == tMAP || t.T == tLIST || t.T == tSET) ==> t.V != nil && wfT(t.V)
-//@     && (!t.IsPointer && t.V.IsPointer ==> t.V.T == tSTRUCT)
-//@     && (t.IsPointer ==> !t.V.IsPointer && t.T == t.V.T && t.WT == t.V.WT && t.FixedSize == t.V.FixedSize && t.V.T != tMAP && t.V.T != tLIST && t.V.T != tSET)
-
-//@ axiom wfT_K: forall t *tType :: {wfT(t), t.K} wfT(t) && t.T == tMAP ==> t.K != nil && wfT(t.K) && (t.K.IsPointer ==> t.K.T == tSTRUCT) && t.K.Tag != defs.T_binary && t.K.T != tMAP && t.K.T != tLIST && t.K.T != tSET
+//@ axiom wfT_V: forall t *tType :: {wfT(t), t.V} wfT(t) && (t.IsPointer || t.T == tMAP || t.T == tLIST || t.T == tSET) ==> wfT(t.V)
+//@ axiom wfT_K: forall t *tType :: {wfT(t), t.K} wfT(t) && t.T == tMAP ==> wfT(t.K)
 
 //@ axiom wfT_Sd: forall t *tType :: {wfT(t), t.Sd} wfT(t) && t.T == tSTRUCT ==> t.Sd != nil && wfSD(t.Sd) && sdSize(t.Sd) == slotSize(t)
 
@@ -286,7 +292,7 @@ package reflect
 //@ spec func strLen(m Mem, a Int) Int = sgn32(R_u32(m, a))
 
 //@ func (t *tType) isBinary() (r bool)
-//@   requires wfT(t)
+//@   requires wfTshape(t)
 //@   modifies nothing
 //@   ensures r == isBin(t)
 
@@ -596,7 +602,7 @@ package reflect
 
 //@ func appendStruct(t *tType, b []byte, base unsafe.Pointer) (r []byte, err error)
 //@   abstract b, r
-//@   requires t != nil && wfSD(t.Sd)
+//@   requires c02_row: t != nil && wfSD(t.Sd)
 //@   modifies nothing
 //@   ensures c02_value: err == nil ==> r == WS(t.Sd, M, base, b)
 //@   loop 0 invariant c02_fields: b == WF(sd, M, base, rangeindex + 1, old(b))
@@ -606,7 +612,9 @@ package reflect
 // --- list fast paths ----------------------------------------------------------
 //@ func appendList_I08(t *tType, b []byte, p unsafe.Pointer) (r []byte, err error)
 //@   abstract b, r
-//@   requires c02_row: wfT(t) && (t.T == tLIST || t.T == tSET) && t.V.T == tBYTE && !t.V.IsPointer && p != nil
+//@   requires wfT(t)
+//@   requires c02_row: wfTshape(t) && (t.T == tLIST || t.T == tSET) && t.V.T == tBYTE && !t.V.IsPointer
+//@   requires p != nil
 //@   modifies nothing
 //@   ensures c02_value: err == nil && r == W(t, M, p, b)
 //@   loop 0 invariant c02_elems: vp != nil && i <= n && (i == 0 ==> WL(t, M, vp, n, b) == W(old(t), M, p, old(b))) && (i > 0 ==> WL(t, M, vp + t.Size, n - i, b) == W(old(t), M, p, old(b)))
@@ -615,7 +623,9 @@ package reflect
 
 //@ func appendList_I16(t *tType, b []byte, p unsafe.Pointer) (r []byte, err error)
 //@   abstract b, r
-//@   requires c02_row: wfT(t) && (t.T == tLIST || t.T == tSET) && t.V.T == tI16 && !t.V.IsPointer && p != nil
+//@   requires wfT(t)
+//@   requires c02_row: wfTshape(t) && (t.T == tLIST || t.T == tSET) && t.V.T == tI16 && !t.V.IsPointer
+//@   requires p != nil
 //@   modifies nothing
 //@   ensures c02_value: err == nil && r == W(t, M, p, b)
 //@   loop 0 invariant c02_elems: vp != nil && i <= n && (i == 0 ==> WL(t, M, vp, n, b) == W(old(t), M, p, old(b))) && (i > 0 ==> WL(t, M, vp + t.Size, n - i, b) == W(old(t), M, p, old(b)))
@@ -624,7 +634,9 @@ package reflect
 
 //@ func appendList_I32(t *tType, b []byte, p unsafe.Pointer) (r []byte, err error)
 //@   abstract b, r
-//@   requires c02_row: wfT(t) && (t.T == tLIST || t.T == tSET) && t.V.T == tI32 && !t.V.IsPointer && p != nil
+//@   requires wfT(t)
+//@   requires c02_row: wfTshape(t) && (t.T == tLIST || t.T == tSET) && t.V.T == tI32 && !t.V.IsPointer
+//@   requires p != nil
 //@   modifies nothing
 //@   ensures c02_value: err == nil && r == W(t, M, p, b)
 //@   loop 0 invariant c02_elems: vp != nil && i <= n && (i == 0 ==> WL(t, M, vp, n, b) == W(old(t), M, p, old(b))) && (i > 0 ==> WL(t, M, vp + t.Size, n - i, b) == W(old(t), M, p, old(b)))
@@ -633,7 +645,9 @@ package reflect
 
 //@ func appendList_I64(t *tType, b []byte, p unsafe.Pointer) (r []byte, err error)
 //@   abstract b, r
-//@   requires c02_row: wfT(t) && (t.T == tLIST || t.T == tSET) && (t.V.T == tI64 || t.V.T == tDOUBLE) && !t.V.IsPointer && p != nil
+//@   requires wfT(t)
+//@   requires c02_row: wfTshape(t) && (t.T == tLIST || t.T == tSET) && (t.V.T == tI64 || t.V.T == tDOUBLE) && !t.V.IsPointer
+//@   requires p != nil
 //@   modifies nothing
 //@   ensures c02_value: err == nil && r == W(t, M, p, b)
 //@   loop 0 invariant c02_elems: vp != nil && i <= n && (i == 0 ==> WL(t, M, vp, n, b) == W(old(t), M, p, old(b))) && (i > 0 ==> WL(t, M, vp + t.Size, n - i, b) == W(old(t), M, p, old(b)))
@@ -642,7 +656,9 @@ package reflect
 
 //@ func appendList_ENUM(t *tType, b []byte, p unsafe.Pointer) (r []byte, err error)
 //@   abstract b, r
-//@   requires c02_row: wfT(t) && (t.T == tLIST || t.T == tSET) && t.V.T == tENUM && !t.V.IsPointer && p != nil
+//@   requires wfT(t)
+//@   requires c02_row: wfTshape(t) && (t.T == tLIST || t.T == tSET) && t.V.T == tENUM && !t.V.IsPointer
+//@   requires p != nil
 //@   modifies nothing
 //@   ensures c02_value: err == nil && r == W(t, M, p, b)
 //@   loop 0 invariant c02_elems: vp != nil && i <= n && (i == 0 ==> WL(t, M, vp, n, b) == W(old(t), M, p, old(b))) && (i > 0 ==> WL(t, M, vp + t.Size, n - i, b) == W(old(t), M, p, old(b)))
@@ -651,7 +667,9 @@ package reflect
 
 //@ func appendList_STRING(t *tType, b []byte, p unsafe.Pointer) (r []byte, err error)
 //@   abstract b, r
-//@   requires c02_row: wfT(t) && (t.T == tLIST || t.T == tSET) && t.V.T == tSTRING && !t.V.IsPointer && p != nil
+//@   requires wfT(t)
+//@   requires c02_row: wfTshape(t) && (t.T == tLIST || t.T == tSET) && t.V.T == tSTRING && !t.V.IsPointer
+//@   requires p != nil
 //@   modifies nothing
 //@   ensures c02_value: err == nil && r == W(t, M, p, b)
 //@   loop 0 invariant c02_elems: vp != nil && i <= n && (i == 0 ==> WL(t, M, vp, n, b) == W(old(t), M, p, old(b))) && (i > 0 ==> WL(t, M, vp + t.Size, n - i, b) == W(old(t), M, p, old(b)))
@@ -660,7 +678,9 @@ package reflect
 
 //@ func appendList_Other(t *tType, b []byte, p unsafe.Pointer) (r []byte, err error)
 //@   abstract b, r
-//@   requires c02_row: wfT(t) && (t.T == tLIST || t.T == tSET) && !t.V.SimpleType && p != nil
+//@   requires wfT(t)
+//@   requires c02_row: wfTshape(t) && (t.T == tLIST || t.T == tSET) && !t.V.SimpleType
+//@   requires p != nil
 //@   modifies nothing
 //@   ensures c02_value: err == nil ==> r == W(t, M, p, b)
 //@   loop 0 invariant c02_elems: vp != nil && i <= n && (i == 0 ==> WL(t, M, vp, n, b) == W(old(t), M, p, old(b))) && (i > 0 ==> WL(t, M, vp + t.Size, n - i, b) == W(old(t), M, p, old(b)))
@@ -669,7 +689,9 @@ package reflect
 
 //@ func appendListAny(t *tType, b []byte, p unsafe.Pointer) (r []byte, err error)
 //@   abstract b, r
-//@   requires c02_row: wfT(t) && (t.T == tLIST || t.T == tSET) && p != nil
+//@   requires wfT(t)
+//@   requires c02_row: wfTshape(t) && (t.T == tLIST || t.T == tSET)
+//@   requires p != nil
 //@   modifies nothing
 //@   ensures c02_value: err == nil ==> r == W(t, M, p, b)
 //@   loop 0 invariant c02_elems: vp != nil && i <= n && (i == 0 ==> WL(t, M, vp, n, b) == W(old(t), M, p, old(b))) && (i > 0 ==> WL(t, M, vp + t.Size, n - i, b) == W(old(t), M, p, old(b)))
@@ -698,7 +720,9 @@ package reflect
 
 //@ func appendMapAnyAny(t *tType, b []byte, p unsafe.Pointer) (r []byte, err error)
 //@   abstract b, r
-//@   requires c02_row: wfT(t) && t.T == tMAP && p != nil
+//@   requires wfT(t)
+//@   requires c02_row: wfTshape(t) && t.T == tMAP
+//@   requires p != nil
 //@   modifies nothing
 //@   ensures c02_value: err == nil ==> r == W(t, M, p, b)
 //@   loop 0 invariant c02_iter: itMap(it) == ld64(p) && 0 <= itDone(it, kp) && itPos(it) <= nmaplen(ld64(p)) && (kp == nil ==> itPos(it) == nmaplen(ld64(p)))
@@ -736,7 +760,9 @@ package reflect
 // native range over the re-typed map
 //@ family appendMap_$K_$V(t *tType, b []byte, p unsafe.Pointer) (r []byte, err error) for K in BOOL I08 I16 I32 I64 ENUM STRING, V in BOOL I08 I16 I32 I64 ENUM STRING
 //@   abstract b, r
-//@   requires c02_row: wfT(t) && t.T == tMAP && p != nil && $(kc.$K) && $(vc.$V)
+//@   requires wfT(t)
+//@   requires c02_row: wfTshape(t) && t.T == tMAP && $(kc.$K) && $(vc.$V)
+//@   requires p != nil
 //@   modifies nothing
 //@   ensures c02_value: err == nil ==> r == W(t, M, p, b)
 //@   loop 0 invariant c02_iter: 0 <= $iter0 && $iter0 <= nmaplen(ld64(p)) && ld64(p) != 0
@@ -750,7 +776,9 @@ package reflect
 
 //@ family appendMap_$K_Other(t *tType, b []byte, p unsafe.Pointer) (r []byte, err error) for K in BOOL I08 I16 I32 I64 ENUM STRING Other
 //@   abstract b, r
-//@   requires c02_row: wfT(t) && t.T == tMAP && p != nil && $(kc.$K) && $(vc.Other)
+//@   requires wfT(t)
+//@   requires c02_row: wfTshape(t) && t.T == tMAP && $(kc.$K) && $(vc.Other)
+//@   requires p != nil
 //@   modifies nothing
 //@   ensures c02_value: err == nil ==> r == W(t, M, p, b)
 //@   loop 0 invariant c02_iter: $(itinv)
@@ -760,10 +788,34 @@ package reflect
 
 //@ family appendMap_Other_$V(t *tType, b []byte, p unsafe.Pointer) (r []byte, err error) for V in BOOL I08 I16 I32 I64 ENUM STRING
 //@   abstract b, r
-//@   requires c02_row: wfT(t) && t.T == tMAP && p != nil && $(kc.Other) && $(vc.$V)
+//@   requires wfT(t)
+//@   requires c02_row: wfTshape(t) && t.T == tMAP && $(kc.Other) && $(vc.$V)
+//@   requires p != nil
 //@   modifies nothing
 //@   ensures c02_value: err == nil ==> r == W(t, M, p, b)
 //@   loop 0 invariant c02_iter: $(itinv)
 //@   loop 0 invariant c02_entries: $(itentries)
 //@   loop 0 hint c02_step: $(itstep)
 //@   loop 0 hint c02_pos: $(itpos)
+
+// --- registration and dispatch -------------------------------------------------------
+// premise under which a table is consulted (mirrors updateListAppendFunc / updateMapAppendFunc,
+// which are themselves proved to store only functions whose row condition holds)
+//@ macro rowpremise.listAppendFuncs = wfTshape(t) && (t.T == tLIST || t.T == tSET)
+//@ macro rowkeys.listAppendFuncs = t.V.T
+//@ macro rowpremise.mapAppendFuncs = wfTshape(t) && t.T == tMAP && t.K.T != tDOUBLE && !isBin(t.V)
+//@ macro rowkeys.mapAppendFuncs = t.K.T; t.V.T
+
+//@ func updateListAppendFunc(t *tType)
+//@   reveal implementsAppend
+//@   requires wfTshape(t)
+//@   modifies t.AppendFunc
+//@   panics when t.T != tLIST && t.T != tSET
+//@   ensures c02_registered: implementsAppend(t)
+
+//@ func updateMapAppendFunc(t *tType)
+//@   reveal implementsAppend
+//@   requires wfTshape(t)
+//@   modifies t.AppendFunc
+//@   panics when t.T != tMAP
+//@   ensures c02_registered: implementsAppend(t)
